@@ -389,7 +389,10 @@ fn random_params(r: &mut Rng) -> Params {
         1 => r.f() * 0.05,
         _ => 0.05 + r.f() * 3.0,
     };
-    let spans = match r.below(8) {
+    let spans = match r.below(9) {
+        // the largest span counts a file can express (and one beyond)
+        8 if r.chance(1, 25) => [8999, 9000, 9001][r.below(3)],
+        8 => 2,
         0 => 1,
         1 => 2,
         2 => 3 + r.below(40) as i32,
@@ -407,6 +410,8 @@ fn random_params(r: &mut Rng) -> Params {
         5 => -r.f() * 10.0,
         _ => (total * (0.02 + r.f() * 0.6)).max(total / 400.0),
     };
+    // thousands of spans: keep the ticks per span few
+    let td = if spans >= 8999 && td.is_finite() && td > 0.0 { total * (0.6 + r.f()) } else { td };
     let sd = if vel > 0.0 && r.chance(3, 4) { total / vel } else { [1.0, 35.0, 36.0, 37.0, 72.0, 500.0, 0.0][r.below(7)] };
     Params { start: (r.f() - 0.2) * 200_000.0, sd, vel, td, total, spans }
 }
